@@ -46,6 +46,7 @@ func main() {
 	known := flag.String("known", "", "comma-separated monitor signatures listed as known findings")
 	replay := flag.String("replay", "", "replay a case token (file path) against implementation and model")
 	scale := flag.Float64("scale", 1.0, "case count multiplier")
+	only := flag.String("suite", "", "run only this suite")
 	flag.Parse()
 	start := time.Now()
 
@@ -71,6 +72,9 @@ func main() {
 		}
 	}
 	for si, su := range suites {
+		if *only != "" && su.Name != *only {
+			continue
+		}
 		g := &Gen{R: rand.New(rand.NewSource(*seed*1000003 + int64(si)))}
 		m := su.NewMachine()
 		st := NewStats()
